@@ -85,5 +85,11 @@ impl<T: ?Sized> Mutex<T> {
     pub fn lock(&self) -> MutexGuard<'_, T> {
         self.0.lock().expect("acquiring a poisoned mutex")
     }
+
+    /// Returns whether the mutex is currently held (verification harness).
+    #[cfg(feature = "verif-hooks")]
+    pub fn verif_is_locked(&self) -> bool {
+        matches!(self.0.try_lock(), Err(std::sync::TryLockError::WouldBlock))
+    }
 }
 
